@@ -221,5 +221,17 @@ CLAIMS = {
          "Two known findings (D3 ASCII field overflow, D4 nonbigmat string header overflow).",
     note="Partial: the file plumbing around the kernels is only exercised by the bounded round trips. Trusted: z3, AST extraction (fails closed), printf %E contract.",
     technique="verification conditions generated from AST-extracted assignments of the real writer/reader (z3 LIA); symbolic string domain for the field width; known-finding regions carved out; bounded write->read round trips"),
+ "C11": dict(
+    text="Mostly a bounded differential check, stated as such: an encoder that shares no code with pyYeti (vc/nasenc.py, its record skeleton compared with a Nastran-written sample "
+         "file on every run) lays out matrices and tables in every physical variant the formats permit - OUTPUT4 binary {byte order} x {32/64-bit integers} x {dense, bigmat, "
+         "nonbigmat} x {real/complex, single/double} x string partitions (maximal runs, runs split at arbitrary places, runs merged with explicit zeros), strings of >= 3000 values "
+         "(struct -> fromfile cut-over), ASCII with E/D exponents and several announced widths; OUTPUT2 {byte order} x {32/64-bit keys} x {with/without header} with matrices of "
+         "types 1-4, repeated names and multi-part table records - and the real readers must return exactly the encoded content in dense, sparse and auto read modes; dir() and "
+         "OP2.directory() must agree with full reads and with the byte offsets the encoder recorded; a named subset must equal filtering; skipping must leave the reader at the "
+         "next data block. Deductive part (z3, small): reader arithmetic extracted by AST - format detection for every legal first word, the skip distance of _skipop4_binary, "
+         "values-per-string of rdop2matrix for every integer width and precision, bigmat/nonbigmat string decoding.",
+    note="No contract within reach decides the byte-level decoders as a whole (file I/O, struct, numpy.fromfile); the end-to-end part is bounded and never counted as proved. "
+         "Trusted: the format grammar transcribed in vc/nasenc.py.",
+    technique="bounded differential check against an independent format encoder; verification conditions from AST-extracted reader arithmetic (z3)"),
 }
 NOT_APPLICABLE = {}
